@@ -181,7 +181,26 @@ def native_playback(w, h, tests, prop):
                  "//@replay harness=%s build=%s file=%s\n%s" % (
                      prop, h.id, os.path.relpath(h.file, VERIF), prop, rpath, h.id, w.build,
                      os.path.relpath(h.file, VERIF), body))
-    return run_playback(w.scratch, w.build, names, w.logdir, h.uid) + (rpath,)
+    # 1. the real code, as it is
+    rep, out = run_playback(w.scratch, w.build, names, w.logdir, h.uid)
+    if rep:
+        return rep, out, rpath
+    # 2. contract-stub harness: `#[kani::stub]` is not applied by the playback, so the recorded
+    # values do not line up with the real functions; replay again with the harness's stubs
+    # installed in the scratch copy (the composition the solver decided)
+    stubs = [] if os.path.basename(h.file).startswith("c13_") else lrv.stubs_of(h)
+    if not stubs:
+        return rep, out, rpath
+    undo, problems = lrv.inject_stubs(w.scratch, h, stubs, w.copies)
+    try:
+        if problems:
+            out["with_stubs"] = dict(not_replayable=problems)
+            return False, out, rpath
+        rep2, out2 = run_playback(w.scratch, w.build, names, w.logdir, h.uid + "-stubs")
+        out["with_stubs"] = out2
+        return rep2, out, rpath
+    finally:
+        lrv.restore_files(undo)
 
 
 def run_playback(scratch, build, names, logdir, tag):
@@ -215,6 +234,10 @@ def run_playback(scratch, build, names, logdir, tag):
         ran = re.search(r"test result: (\w+)\. (\d+) passed; (\d+) failed", text)
         failed = int(ran.group(3)) if ran else 0
         msgs = re.findall(r"panicked at ([^\n]*\n[^\n]*)", text)
+        # a test that fails inside Kani's playback library (recorded values left over / missing)
+        # did not follow the counterexample: that is not a reproduction
+        unfaithful = [m for m in msgs if "concrete_playback.rs" in m]
+        failed = max(0, failed - len(unfaithful))
         if not ran:
             berr = re.findall(r"^error[^\n]*", text, flags=re.M)[:2]
             msgs = ["PLAYBACK BUILD/RUN FAILED: " + " | ".join(berr)] + msgs
@@ -247,6 +270,21 @@ def cmd_replay(prop, path):
         logdir = os.path.join(scratch, "logs")
         os.makedirs(logdir)
         rep, out = run_playback(scratch, build, names, logdir, hid)
+        if not rep:
+            # contract-stub harness: second stage with the stubs installed (see native_playback)
+            _, hs_all = lrv.discover()
+            h = next((x for x in hs_all if x.id == hid and x.file == os.path.join(VERIF, hfile)), None)
+            stubs = lrv.stubs_of(h) if h and not os.path.basename(hfile).startswith("c13_") else []
+            if stubs:
+                undo, problems = lrv.inject_stubs(scratch, h, stubs, copies)
+                try:
+                    if problems:
+                        out["with_stubs"] = dict(not_replayable=problems)
+                    else:
+                        rep, out2 = run_playback(scratch, build, names, logdir, hid + "-stubs")
+                        out["with_stubs"] = out2
+                finally:
+                    lrv.restore_files(undo)
         print(json.dumps(out, indent=1))
         print("REPRODUCED" if rep else "NOT-REPRODUCED")
         return 1 if rep else 0
@@ -350,7 +388,7 @@ def main():
                         if not tests:
                             entry["verdict"] = "inconclusive"
                             entry["reason"] += " | no concrete playback generated (see %s)" % glog
-                            status = max(status, 2)
+                            status = max(status, 2) if status != 1 else 1
                             lines.append("INCONCLUSIVE property=%s harness=%s: no concrete playback generated: %s" % (prop, h.uid, entry["reason"][:400]))
                         else:
                             rep, out, rpath = native_playback(w, h, tests, prop)
